@@ -128,3 +128,15 @@ Theorem C06_buffer_correct :
               x < blen p /\ nth (N.to_nat x) (e_buf e) 0 = nth (N.to_nat x) p 0.
 Proof. exact buffer_correct. Qed.
 Print Assumptions C06_buffer_correct.
+
+(** Damaged copies (a block CRC invalid) anywhere in the arrival history contribute nothing
+    and suppress nothing: what is delivered, and the final agent state, are those of the
+    history of the CRC-valid fragments alone -- so every statement above carries over to
+    arrival histories with damaged copies before and after the intact ones, with "the
+    fragments of the history" read as "the CRC-valid fragments of the history". *)
+Theorem C06_damaged_noop :
+  forall (h : list arrival) (st : state),
+    deliveries_arr st h = deliveries st (intact_only h) /\
+    fst (run_arr st h) = fst (run st (intact_only h)).
+Proof. exact damaged_noop. Qed.
+Print Assumptions C06_damaged_noop.
